@@ -694,7 +694,7 @@ class ConcretePathCheck:
         # the probe message "VAL?;A" resolved from the root is undefined at its first unit: exactly one more error, nothing else
         errors += 1
         got_calls = calls_of(dev)
-        got_errs = len(dev.f[1].f[0].items)
+        got_errs = len(w.queue_items(dev))
         got_out = bytes(x for x in wr.items if isinstance(x, int))
         viol = None
         if 'FAULT' in exp1:
